@@ -26,5 +26,25 @@ Proof.
   destruct (arg_phase w ps args) as [c|e|x] eqn:Ea; intros H; try (inversion H; fail).
   destruct (ret_phase w c v) as [[]|e|x] eqn:Er; inversion H; subst. split; [reflexivity|]. exists c. split; [reflexivity|exact Er].
 Qed.
+(* non-vacuity: concrete wrappers, arguments and values that meet the hypotheses above *)
+Definition ty0 : ttype := {| t_shape := []; t_mindex := None; t_mname := None; t_anon := false; t_lits := [] |}.
+Definition annA (s:string) (o:bool) : annot :=
+  {| a_ty := match parse_shape s with Ok ty => ty | Err _ => ty0 end; a_dtypes := []; a_opt := o |}.
+Definition tenE (l:list Z) : tensor := {| x_lib := LNumpy; x_dt := KF32; x_shape := l |}.
+Definition arrE (l:list Z) : value := VArr (tenE l).
+Definition w7 : wrapped := {| w_params := [("x", (false, [Some (annA "a b" false)]))]; w_ret := Some (false, [Some (annA "a" false)]); w_provider := PNone |}.
+Example ex07_args_rejected_body_not_run :
+  arg_phase w7 (PSOk []) [("x", arrE [2]%Z)] = DRej (ENDims "x" 2 1) /\
+  run_call w7 (PSOk []) [("x", arrE [2]%Z)] (BReturn (arrE [2]%Z)) = (false, CRejected (ENDims "x" 2 1)).
+Proof. split; reflexivity. Qed.
+Example ex07_missing_argument_crashes : arg_phase w7 (PSOk []) [] = DCrash (KeyErr "x").
+Proof. reflexivity. Qed.
+Example ex07_result_rejected_after_body :
+  (exists c, arg_phase w7 (PSOk []) [("x", arrE [2;3]%Z)] = DOk c /\ ret_phase w7 c (arrE [5]%Z) = DRej (EShape "return" 0 2 5)) /\
+  run_call w7 (PSOk []) [("x", arrE [2;3]%Z)] (BReturn (arrE [5]%Z)) = (true, CRejected (EShape "return" 0 2 5)).
+Proof. split; [eexists; split; reflexivity | reflexivity]. Qed.
+Example ex07_value_after_both :
+  run_call w7 (PSOk []) [("x", arrE [2;3]%Z)] (BReturn (arrE [2]%Z)) = (true, CReturned (arrE [2]%Z)).
+Proof. reflexivity. Qed.
 Redirect "C07.assumptions.1" Print Assumptions C07_args_first.
 Redirect "C07.assumptions.2" Print Assumptions C07_value_only_after_both.
